@@ -265,6 +265,20 @@ def r2_inline_never_persistent(ctx):
                'under directive.inline the target may alias only %s (%s)' % (sorted(al), kind) if not bad else
                'an inline directive can write the persistent state (%s; target may alias %s): its effect outlives the statement' % (kind, sorted(al)),
                anchor=func.qualname)
+    # setdefault / get with a persistent item as default put (or hand out) the persistent object itself
+    r0 = _recv(f)
+    for c in walk_scope(f.node):
+        if isinstance(c, ast.Call) and isinstance(c.func, ast.Attribute) and c.func.attr in ('setdefault', 'get') and len(c.args) == 2:
+            dflt = c.args[1]
+            bare = isinstance(dflt, (ast.Subscript, ast.Attribute)) and any(field_name(x, r0) == r0 + '.' + GLOBAL for x in ast.walk(dflt))
+            if bare:
+                par = getattr(c, '_parent', None)
+                mutated = isinstance(par, ast.Attribute) and par.attr in ('add', 'remove', 'discard', 'update', 'clear', 'pop', 'append', 'extend')
+                stored = c.func.attr == 'setdefault'
+                rep.ob('C04.R2', ctx.loc(f, c), ctx.src(par._parent if mutated and isinstance(getattr(par, '_parent', None), ast.Call) else c), not (mutated or stored),
+                       'persistent item only read' if not (mutated or stored) else
+                       'the persistent (mutable) item itself is %s: for an inline directive the persistent state is changed through the alias' %
+                       ('placed in the overlay and mutated' if stored and mutated else 'placed in the overlay' if stored else 'mutated'), anchor=f.qualname)
     # item stores into the overlay must not alias mutable items of the persistent state
     recv = _recv(f)
     for (func, node, al, kind, sn) in sites_inline:
@@ -739,6 +753,9 @@ VARIANTS = [
     fire('last-statement-not-scanned', 'C04.R8', ('xdoctest/parser.py', "        for s1, s2 in zip(ps1_linenos, ps1_linenos[1:] + [None]):\n", "        for s1, s2 in zip(ps1_linenos, ps1_linenos[1:]):\n")),
     fire('directives-keyed-by-next-start', 'C04.R8', ('xdoctest/parser.py', "                ps1_to_directive[s1] = directives\n", "                ps1_to_directive[s2] = directives\n")),
     fire('break-only-for-block-directives', 'C04.R8', ('xdoctest/parser.py', "                ps1_to_directive[s1] = directives\n                break_linenos.append(s1)\n", "                ps1_to_directive[s1] = directives\n                if not directives[0].inline:\n                    break_linenos.append(s1)\n")),
+    fire('overlay-setdefault-aliases-persistent-set', 'C04.R2',
+         (DI, "                    if key not in state:\n                        # inline directives work on a copy of the persistent set\n                        state[key] = set(self._global_state[key])\n                    try:\n                        state[key].remove(value)\n                    except KeyError:\n                        pass\n",
+              "                    state.setdefault(key, self._global_state[key]).discard(value)\n")),
     silent('overlay-reset-by-new-dict', (DI, "        self._inline_state.clear()\n", "        self._inline_state = {}\n")),
     silent('state-selected-by-ifexp-kept-as-if',
            (DI, "                if directive.inline:\n                    state = self._inline_state\n                else:\n                    state = self._global_state\n",
